@@ -1,8 +1,8 @@
 SPECIFICATION SSpec
 CONSTANTS
-  Threads = {1, 2, 3, 4, 5}
+  Threads = {1, 2, 3}
   Scans = 2
-  SaveMask = TRUE
+  SaveMask = FALSE
   MaxFaults = 2
   CountInsideIf = FALSE
 INVARIANTS NeverKilled MaskRestored HandlerCoversBody CountExact InstalledIffUsed NonNegative
